@@ -341,6 +341,11 @@ func (h *c38Hist) doOnce(kind string, r *vfRng, maxNodes int) string {
 		if upVoters == 2 {
 			return "" // the other voter alone has no quorum while this one is away
 		}
+		// mirror everything that happened since the last read (an upgraded read appends a command of
+		// its own) so that the model's view of this node is current when it restarts
+		if !h.sync() {
+			return ""
+		}
 		h.c.Stop(leader)
 		if err := h.c.Restart(leader); err != nil {
 			h.aborted = "restart: " + err.Error()
